@@ -1124,6 +1124,8 @@ var c08Corpus = []c08Prog{
 	{Family: "corpus-printf-verbs-on-composites", Src: "a := [3 1 2]\nm := {ann:7 bob:9}\nx:any\nx = a\ny:any\ny = m\n" +
 		"printf \"%d %p %b %o\\n\" a m x y\nprintf \"%x %X %#v %T\\n\" a m x y\nprintf \"%e %c %U %t %g\\n\" a m x y a\n" +
 		"s := sprintf \"%d|%v|%s|%q|%5d|%p|%+v\" a m a m m a y\nprint s\nprintf \"%d %d\\n\" [[1] [2]] [{k:[1]}]\nprintf \"%p %p\\n\" \"s\" 1\n"},
+	// the seeded PRNG is the only source of randomness: every form of argument (integer, fractional, computed) many times
+	{Family: "corpus-rand-all-argument-forms", Src: "s := \"\"\nfor range 40\n    s = s + (sprint (rand 6)) + (sprint (rand 2.5)) + (sprint (rand 7/2)) + (sprint (rand 1)) + (sprint (rand 1.000001))\nend\nprint s\nprint (rand1) (rand1) (rand 2147483647) (rand 2147483646.5)\n"},
 	{Family: "corpus-design-7-6", N: 2, Dep: true, Src: "a := 1\nb := 2\n"},
 	{Family: "corpus-design-7-8", N: 3, Dep: true, Src: "font {size:\"a\" weight:\"b\" style:1}\n"},
 }
